@@ -43,7 +43,29 @@ def roles(facts):
     return r
 
 
-def serializer_obligations(ctx, facts, rule=None):
+def hexsite(es):
+    for e in es:
+        if e.get("_cls", ("",))[0].startswith("hex"):
+            return e["bb"]
+    return es[-1]["bb"] if es else 0
+
+
+def order_by_flow(body, es):
+    es = list(es)
+    out = []
+    while es:
+        for e in es:
+            if not any(o is not e and e["bb"] in body.reachable_from(o["bb"]) and o["bb"] not in body.reachable_from(e["bb"], avoid=set(body.loops().keys())) and o["bb"] != e["bb"] for o in es):
+                out.append(e)
+                es.remove(e)
+                break
+        else:
+            out.extend(sorted(es, key=lambda e: e["bb"]))
+            break
+    return out
+
+
+def serializer_obligations(ctx, facts, rule=None, scope="all"):
     R = lambda r: rule or r  # noqa: E731
     rl = roles(facts)
     key = rl.get("serialize")
@@ -99,52 +121,99 @@ def serializer_obligations(ctx, facts, rule=None):
         raise AnchorError("serialiser: Ok payload is not the accumulator", key)
     accn = acc[1]
     emits = [e for e in bs["effects"] if e["target"][0] == "var" and e["target"][1] == accn and not e["path"].endswith("deref_mut")]
-    seq = []
-    for e in emits:
+    summ = boolsum.Summarizer(facts)
+    HEX = boolsum.set_of("ascii_hexdigit")
+
+    def classify(e):
         p = e["path"]
         a = e["args"]
         if p.endswith("::push") and models.cchar(e["raw"][1]) is not None:
-            seq.append(("lit", models.cchar(e["raw"][1]), e))
-        elif p.endswith("::push_str"):
-            seq.append(("str", strip_conv(a[1]), e))
-        elif p.endswith("::extend"):
-            seq.append(("extend", strip_conv(a[1]), e))
-        else:
-            seq.append(("?", p, e))
-    kinds = [s_[0] + (":" + s_[1] if s_[0] == "lit" else "") for s_ in seq]
-    ctx.ob(R("AGREE-K"), "serialiser emits [','] algorithm ':' hex per entry", kinds == ["lit:,", "str", "lit::", "extend"], fn=key, site=site, detail=str(kinds))
-    if kinds == ["lit:,", "str", "lit::", "extend"]:
-        comma, alg, colon, hexe = seq
-        ctx.ob(R("AGREE-K"), "',' is pushed only between entries (accumulator non-empty)", ("empty", ("Var", accn), False) in comma[2]["catoms"], fn=key, site=comma[2]["site"], detail="; ".join(show_canon(c) for c in comma[2]["catoms"])[:200])
-        okalg = alg[1] == ("field", ITEM, "0") or nshow(alg[1]).endswith(").0")
-        ctx.ob(R("AGREE-K"), "the algorithm is written as stored (the map key)", okalg, fn=key, site=alg[2]["site"], detail=nshow(alg[1])[:120])
-        hx = hexe[1]
-        okhex = hx[0] == "call" and hx[1] == "std::iter::Iterator::map" and hx[2][0][0] == "call" and hx[2][0][1].endswith("::chars") and nshow(hx[2][0][2][0]).endswith(").1") and hx[2][1][0] == "closure"
-        if okhex:
-            ct = norm(facts.body(hx[2][1][1]).resolve_local(0))
-            okhex = ct[0] == "call" and ct[1].endswith("::to_ascii_lowercase") and ct[2] == (("arg", 2),)
-        ctx.ob(R("HEX-GUARD"), "the hex text is emitted ASCII-lower-cased, char by char", okhex, fn=key, site=hexe[2]["site"], detail=nshow(hx)[:160])
-        # guards on every emit: all hexdigit and even length
-        summ = boolsum.Summarizer(facts)
-        HEX = boolsum.set_of("ascii_hexdigit")
-        for s_ in seq:
-            e = s_[2]
-            allhex = False
-            even = False
-            for c in e["catoms"]:
-                if c[0] in ("any", "all") and str(c[1]).endswith(").1')"):
-                    cs = boolsum.charset(boolsum.subst_formula(summ.summary(c[2]), {2: boolsum.CPARAM}), facts)
-                    if c[0] == "any" and c[3] is False and (boolsum.universe() & ~cs) == HEX:
-                        allhex = True
-                    if c[0] == "all" and c[3] is True and cs == HEX:
-                        allhex = True
-                if c[0] == "cmp" and c[1] == "Ne" and c[4] is False and "Rem" in str(c[2]) and "len" in str(c[2]):
-                    even = True
-                if c[0] == "cmp" and c[1] == "Eq" and c[4] is True and "Rem" in str(c[2]) and "len" in str(c[2]):
-                    even = True
-            ctx.ob(R("HEX-GUARD"), "emit `%s` happens only under all-hex-digits and even length" % (s_[0] + (":" + s_[1] if s_[0] == "lit" else "")), allhex and even, fn=key, site=e["site"], detail="; ".join(show_canon(c) for c in e["catoms"])[:300])
-        errs = [r for r in bs["returns"] if r["cls"][0] == "err"]
-        ctx.ob(R("HEX-GUARD"), "the failing edges of the hex guards return InvalidQualifier", len(errs) == 1 and models.error_const(errs[0]["cls"][1]) == "ParseError::InvalidQualifier", fn=key, site=errs[0]["site"] if errs else site, detail="")
+            return ("lit", models.cchar(e["raw"][1]))
+        if p.endswith("::push_str"):
+            v = strip_conv(a[1])
+            if nshow(v).endswith(").0"):
+                return ("alg",)
+            if nshow(v).endswith(").1") or ".1 as " in nshow(v) or nshow(v).endswith(".0") and ".1" in nshow(v):
+                return ("hex-as-given",)
+            return ("str", nshow(v)[:80])
+        if p.endswith("::extend"):
+            hx = strip_conv(a[1])
+            ok = hx[0] == "call" and hx[1] == "std::iter::Iterator::map" and hx[2][0][0] == "call" and hx[2][0][1].endswith("::chars") and ".1" in nshow(hx[2][0][2][0]) and hx[2][1][0] == "closure"
+            if ok:
+                ct = norm(facts.body(hx[2][1][1]).resolve_local(0))
+                if ct[0] == "call" and ct[1].endswith("::to_ascii_lowercase") and ct[2] == (("arg", 2),):
+                    return ("hex-lower",)
+            return ("extend", nshow(hx)[:80])
+        return ("?", p)
+
+    def guard_kind(c, acc):
+        """classify a guard atom of an emit site: returns (kind, ok?)"""
+        if c[0] == "next":
+            return "next"
+        if c[0] in ("any", "all") and ".1" in str(c[1]):
+            cs = boolsum.charset(boolsum.subst_formula(summ.summary(c[2]), {2: boolsum.CPARAM}), facts)
+            if c[0] == "any" and c[3] is False and (boolsum.universe() & ~cs) == HEX:
+                return "allhex"
+            if c[0] == "all" and c[3] is True and cs == HEX:
+                return "allhex"
+            return "other:" + show_canon(c)[:80]
+        if c[0] == "cmp" and "Rem" in str(c[2]) and "len" in str(c[2]) and ((c[1] == "Ne" and c[4] is False) or (c[1] == "Eq" and c[4] is True)):
+            return "even"
+        if c == ("empty", ("Var", acc), False):
+            return "acc-nonempty"
+        if c[0] == "is" and c[2] in ("Borrowed", "Owned"):
+            return "variant:" + c[2]
+        if c[0] == "isin" and set(c[2]) <= {"Borrowed", "Owned"}:
+            return "variant:any"
+        return "other:" + show_canon(c)[:80]
+
+    variants = {}
+    for e in emits:
+        kinds = [guard_kind(c, accn) for c in e["catoms"]]
+        vs = [k.split(":")[1] for k in kinds if k.startswith("variant:") and k != "variant:any"]
+        e["_kinds"] = kinds
+        e["_cls"] = classify(e)
+        variants.setdefault(vs[0] if vs else None, []).append(e)
+    common = variants.pop(None, [])
+    names = sorted(variants) or [None]
+    if scope == "parsed":
+        # only what build() can feed: values borrowed from the parsed text
+        pk = rl.get("parse")
+        pbs = models.body_summary(facts, pk)
+        ins = [e for e in pbs["effects"] if e["path"].endswith("HashMap::<K, V, S, A>::insert")]
+        borrowed = len(ins) == 1 and strip_conv(ins[0]["args"][2])[0] == "agg" and strip_conv(ins[0]["args"][2])[1][2] == "Borrowed"
+        ctx.ob(R("AGREE-K"), "values parsed from text are stored as Cow::Borrowed (the only variant build() can serialise)", borrowed, fn=pk, site=ins[0]["site"] if ins else "", detail="")
+        if "Borrowed" in names:
+            names = ["Borrowed"]
+    for vn in names:
+        seq = sorted(common + variants.get(vn, []), key=lambda e: (0 if body.dominates(e["bb"], hexsite(common + variants.get(vn, []))) else 1, e["bb"]))
+        # order by reachability
+        seq = order_by_flow(body, common + variants.get(vn, []))
+        kinds = [e["_cls"][0] + (":" + e["_cls"][1] if e["_cls"][0] == "lit" else "") for e in seq]
+        tag = "" if vn is None else "[%s values] " % vn
+        ctx.ob(R("AGREE-K"), tag + "serialiser emits [','] algorithm ':' lower-case-hex per entry", kinds == ["lit:,", "alg", "lit::", "hex-lower"], fn=key, site=site, detail=str(kinds))
+        for e in seq:
+            ks = e["_kinds"]
+            allowed = {"next", "allhex", "even", "variant:any", "variant:" + str(vn)} | ({"acc-nonempty"} if e["_cls"] == ("lit", ",") else set())
+            extra = [k for k in ks if k not in allowed]
+            need = {"allhex", "even"} <= set(ks)
+            what = e["_cls"][0] + (":" + e["_cls"][1] if e["_cls"][0] == "lit" else "")
+            ctx.ob(R("HEX-GUARD"), tag + "emit `%s` happens exactly under all-hex-digits and even length (no entry is skipped or emitted conditionally)" % what, need and not extra and (e["_cls"] != ("lit", ",") or "acc-nonempty" in ks), fn=key, site=e["site"], detail="guards: %s" % ks)
+    errs = [r for r in bs["returns"] if r["cls"][0] == "err"]
+    ctx.ob(R("HEX-GUARD"), "the failing edges of the hex guards return InvalidQualifier", len(errs) == 1 and models.error_const(errs[0]["cls"][1]) == "ParseError::InvalidQualifier", fn=key, site=errs[0]["site"] if errs else site, detail="")
+    # every other way out of a loop iteration must be the error return: no `continue` that skips an entry
+    rets = dict(models.returns(body))
+    skip = []
+    for gb, c in set((gb, c) for e in emits for gb, c in e["gatoms"]):
+        if c[0] in ("next",) or (c[0] in ("is", "isin") and c[-1] in ("Borrowed", "Owned")) or c == ("empty", ("Var", accn), False):
+            continue
+        for (lab, tg) in body.edges(gb):
+            reach = body.reachable_from(tg, avoid={gb})
+            if any(e["bb"] in reach or e["bb"] == tg for e in emits if any(g == gb for g, _ in e["gatoms"])):
+                continue
+            if h in reach and not any(b in rets for b in body.reachable_from(tg, avoid={gb, h})):
+                skip.append((body.site(gb), show_canon(c)[:80]))
+    ctx.ob(R("HEX-GUARD"), "no guard inside the loop continues with the next entry without emitting (an entry is emitted or the whole value is refused)", not skip, fn=key, site=site, detail=str(skip))
     return rl
 
 
@@ -303,6 +372,26 @@ def rule_build_canon(ctx):
     if ok:
         ok = body.dominates(st["S4get"][0]["bb"], st["S5"][0]["bb"]) and body.dominates(st["S4ser"][0]["bb"], st["S4ins"][0]["bb"])
     ctx.ob("BUILD-CANON", "build() re-serialises a present checksum qualifier before constructing the PURL (details: C04 BM-ORDER)", ok, fn=bm["key"], site=fn_site(facts, bm["key"]), detail="")
+    if ok:
+        # the rewrite happens whenever the typed get returned Some: its path condition mentions nothing else
+        ins = st["S4ins"][0]
+        allowed = []
+        extra = []
+        for c in ins["catoms"]:
+            if c[0] == "callres" and c[-1] == "Ok?" and (c[1] in ("PurlShape::finish", st["S4ser"][0]["path"]) or c[1].endswith("try_get_typed")):
+                allowed.append(c)
+            elif c[0] == "empty" and c[1] == ("Field", "arg1.parts.name") and c[2] is False:
+                allowed.append(c)
+            elif c[0] == "is" and c[2] == "Some" and "try_get_typed" in str(c[1]):
+                allowed.append(c)
+            else:
+                extra.append(show_canon(c)[:100])
+        ctx.ob("BUILD-CANON", "the checksum rewrite is unconditional once a checksum qualifier is present", not extra, fn=bm["key"], site=ins["site"], detail="additional conditions: %s" % extra)
+        vterm = ins["args"][2]
+        while vterm[0] == "conv":
+            vterm = vterm[1]
+        okv = vterm[0] == "ok" and vterm[1][0] == "call" and vterm[1][1] == st["S4ser"][0]["path"] and vterm[1][2][0][0] == "some" and vterm[1][2][0][1][0] == "ok" and vterm[1][2][0][1][1][0] == "call" and vterm[1][2][0][1][1][1].endswith("try_get_typed")
+        ctx.ob("BUILD-CANON", "the value written back is serialise(parse(current checksum text))", okv, fn=bm["key"], site=ins["site"], detail=nshow(vterm)[:160])
     # try_get_typed::<Checksum> = get(KEY).map(try_from).transpose
     ks = [k for k, f in facts.fns.items() if f.get("name") == "try_get_typed"]
     t = norm(facts.body(ks[0]).resolve_local(0))
@@ -312,14 +401,21 @@ def rule_build_canon(ctx):
     ctx.ob("BUILD-CANON", "Checksum::KEY = \"checksum\"", kc is not None and kc["v"] == "checksum", detail=str(kc and kc["v"]))
 
 
+def rule_controls(ctx):
+    from . import controls
+    if ctx.tier == 'thorough':
+        controls.control_sort_taint(ctx)
+
+
 RULES = [
+    ("CONTROL", rule_controls, 0),
     ("SORT-TAINT", lambda ctx: (rule_serializer(ctx), rule_sort_taint_others(ctx)), 10),
     ("HEX-GUARD", lambda ctx: None, 6),
-    ("AGREE-K", rule_agree_parser, 7),
+    ("AGREE-K", rule_agree_parser, 5),
     ("KEY-LOWER", rule_key_lower, 4),
-    ("GUARDXFORM", lambda ctx: None, 5),
+    ("GUARDXFORM", lambda ctx: None, 3),
     ("DELEGATE", rule_delegation, 4),
-    ("BUILD-CANON", rule_build_canon, 3),
+    ("BUILD-CANON", rule_build_canon, 5),
 ]
 
 MANIFEST = {
